@@ -142,7 +142,7 @@ PROPS["C08"] = {
 }
 
 
-def zb_plan(thorough_layers=(), miri_scale=0.002, quick_scale=1.0):
+def zb_plan(thorough_layers=(), miri_scale=0.002, quick_scale=1.0, tsan_only=None):
     def plan(tier):
         steps = [{"engine": "zb", "features": "", "layer": "monitor", "scale": quick_scale if tier == "quick" else 1.0}]
         if tier == "thorough":
@@ -154,6 +154,10 @@ def zb_plan(thorough_layers=(), miri_scale=0.002, quick_scale=1.0):
                 elif layer in ("asan", "tsan"):
                     st["scale"] = 0.3
                     st["args"] = ["--tier", "quick"]
+                    if layer == "tsan" and tsan_only:
+                        # ThreadSanitizer is only worth its build where real threads run: just that class
+                        st["scale"] = 1.0
+                        st["args"] += ["--x-only", tsan_only]
                 elif layer == "valgrind":
                     # ~25x slower: only the real-socket classes (libc sendmsg/recvmsg with ancillary data), 4 shards
                     st["scale"] = 0.5
@@ -473,7 +477,7 @@ PROPS["C30"] = {
 
 PROPS["C36"] = {
     "level": "exploration",
-    "plan": zb_plan(("release", "miri")),
+    "plan": zb_plan(("release", "tsan", "miri"), tsan_only="real-daemon"),
     "rule": ("histories of 5..30 (10..60 thorough) steps on a bus connection (full client handshake + Hello against the scripted bus) over 3 names: "
              "request_name_with_flags with all 8 flag subsets, release_name, the bus granting a queued name (NameAcquired, also right "
              "behind the InQueue reply), the bus replacing the connection as owner (NameLost, re-queued unless DoNotQueue), look-alike "
@@ -494,7 +498,7 @@ PROPS["C36"] = {
 
 PROPS["C37"] = {
     "level": "exploration",
-    "plan": zb_plan(("release", "miri")),
+    "plan": zb_plan(("release", "tsan", "miri"), tsan_only="real-daemon"),
     "rule": ("histories of 3..9 (5..16 thorough) rounds on a bus connection against the scripted bus: each round concurrently creates 0..3 handles "
              "(MessageStreams over 5 rules incl. one shared with a proxy signal stream, proxies to a unique and two well-known names with/"
              "without property cache, proxy signal streams) and drops ~1/3 of the live ones (sync Drop, async_drop, clone-then-drop-"
